@@ -94,6 +94,21 @@ def runUwtWrite (v : Validator) (root : PPath) (nodes : List (PPath × Node)) (e
   let body := qs.map (fun p => showPPath p ++ "=" ++ showNode (st.fs p))
   status ++ " " ++ toString st.log.length ++ " " ++ " ".intercalate body
 
+/-- `c17.sparse <validator> <root> <nfs> <node>… <nent> <entry>:<0|1 excluded>… <query>…`: step 2 of apply_included_paths -/
+def sparseEntry? (s : String) : Option (Entry × Bool) :=
+  match s.splitOn ":" with
+  | [p, m, c, x] => do some ({ path := ← bytes? p, mode := ← nat? m, content := ← bytes? c }, ← bool? x)
+  | _ => none
+
+def runSparse (v : Validator) (root : PPath) (nodes : List (PPath × Node)) (entries : List (Entry × Bool))
+    (queries : List PPath) : String :=
+  let fs : FS := nodes.foldl (fun fs pn => fs.set pn.1 (some pn.2)) (fun _ => none)
+  let (st, err) := sparseApply (v.run foldAscii) root entries { fs := fs, log := [], safe := [] }
+  let status := match err with | none => "ok" | some e => e.toString
+  let qs := dedup (queries ++ st.log.map Mut.target)
+  let body := qs.map (fun p => showPPath p ++ "=" ++ showNode (st.fs p))
+  status ++ " " ++ toString st.log.length ++ " " ++ " ".intercalate body
+
 def handle (op : String) (args : List String) : Option String :=
   match op, args with
   | "c17.elem", v :: h :: tbl => some <| match validator? v, bytes? h, parseFold tbl with
@@ -133,6 +148,16 @@ def handle (op : String) (args : List String) : Option String :=
       let entries ← ((rest.drop 1).take nent).mapM entry?
       let queries ← ((rest.drop 1).drop nent).mapM ppath?
       some (runUwtWrite v root nodes entries queries)).getD "bad-arg"
+  | "c17.sparse", v :: root :: nfs :: rest => some <| (do
+      let v ← validator? v
+      let root ← ppath? root
+      let nfs ← nat? nfs
+      let nodes ← (rest.take nfs).mapM node?
+      let rest := rest.drop nfs
+      let nent ← nat? (← rest.head?)
+      let entries ← ((rest.drop 1).take nent).mapM sparseEntry?
+      let queries ← ((rest.drop 1).drop nent).mapM ppath?
+      some (runSparse v root nodes entries queries)).getD "bad-arg"
   | "c17.del", v :: root :: nfs :: rest => some <| (do
       let v ← validator? v
       let root ← ppath? root
